@@ -160,6 +160,56 @@ fn check_rounds(g: &Group, g2: &Group, sets: &[u32]) -> Result<u64, V> {
     }
 }
 
+/// consecutive rounds with explicit received-sets (large configurations)
+fn check_big_rounds(g: &Group, g2: &Group, pats: &[(Vec<usize>, Vec<usize>)]) -> Result<u64, V> {
+    let kind = codec_kind(&g.codec);
+    let res = guard(|| -> Result<u64, V> {
+        with_engine!(g.eng.as_str(), E => {
+            let mut dec = make_decoder::<E>(kind, g.k, g.r, g.bytes, soil_opt(g.soil)).map_err(|e| ("new Ok".to_string(), format!("{e:?}")))?;
+            for (round, (og, rg)) in pats.iter().enumerate() {
+                let src = if round % 2 == 0 { g } else { g2 };
+                for &i in og {
+                    dec.add_original(i, &src.originals[i]).map_err(|e: Error| (format!("round {round}: add_original_shard({i}) Ok (previous result was dropped)"), format!("Err({e:?})")))?;
+                }
+                for &j in rg {
+                    dec.add_recovery(j, &src.recovery[j]).map_err(|e: Error| (format!("round {round}: add_recovery_shard({j}) Ok (previous result was dropped)"), format!("Err({e:?})")))?;
+                }
+                let result = dec.decode().map_err(|e| (format!("round {round}: decode Ok"), format!("Err({e:?})")))?;
+                let m: std::collections::BTreeMap<usize, Vec<u8>> = result.restored_original_iter().map(|(i, s)| (i, s.to_vec())).collect();
+                // accessor agrees with the iterator on the edges
+                for i in [0usize, 1, g.k / 2, g.k - 1] {
+                    if result.restored_original(i).map(|s| s.to_vec()) != m.get(&i).cloned() {
+                        return Err((format!("round {round}: restored_original({i}) agrees with the iterator"), "disagrees".into()));
+                    }
+                }
+                drop(result);
+                src.check_restored(og, &m).map_err(|e| (format!("round {round}: restored == missing originals of this round"), e))?;
+            }
+            Ok(pats.len() as u64)
+        })
+    });
+    match res {
+        Ok(r) => r,
+        Err(p) => Err(("no panic".into(), format!("PANIC: {p}"))),
+    }
+}
+
+fn big_patterns(k: usize, r: usize) -> Vec<(Vec<usize>, Vec<usize>)> {
+    let m = k.min(r);
+    let mut v: Vec<(Vec<usize>, Vec<usize>)> = Vec::new();
+    // everything except original 0 (touches the highest positions of both groups)
+    v.push(((1..k).collect(), (0..r).collect()));
+    // exactly k without the highest indexes
+    v.push(((0..k - m).collect(), (0..m).collect()));
+    // exactly k with the highest recovery indexes, lowest originals missing
+    v.push(((m..k).collect(), (r - m..r).collect()));
+    // the first pattern again, then the second: every pattern follows every other at least once
+    v.push(((1..k).collect(), (0..r).collect()));
+    v.push(((m..k).collect(), (r - m..r).collect()));
+    v.push(((0..k - m).collect(), (0..m).collect()));
+    v
+}
+
 /// consecutive rounds on one encoder
 fn check_enc_rounds(eng: &str, codec: &str, k: usize, r: usize, bytes: usize, rounds: usize, seed: u64, refm: &RefModel) -> Result<u64, V> {
     let kind = codec_kind(codec);
@@ -195,10 +245,19 @@ fn run_case(refm: &RefModel, kv: &Kv) -> Result<u64, V> {
             let g = Group::from_kv(kv).map_err(|e| ("encode Ok".to_string(), e))?;
             check_dec_accessors(&g, &parse_ranges(kv.str("og")), &parse_ranges(kv.str("rg")))
         }
+        "bigrounds" => {
+            let g = Group::from_kv(kv).map_err(|e| ("encode Ok".to_string(), e))?;
+            let g2 = build_group(&g.eng, &g.codec, g.k, g.r, &g.data.replace("dense:", "dense2:"), g.soil, g.seed).map_err(|e| ("encode Ok".to_string(), e))?;
+            check_big_rounds(&g, &g2, &big_patterns(g.k, g.r))
+        }
         "rounds" => {
             let g = Group::from_kv(kv).map_err(|e| ("encode Ok".to_string(), e))?;
             let g2 = build_group(&g.eng, &g.codec, g.k, g.r, &g.data.replace("dense:", "dense2:"), g.soil, g.seed).map_err(|e| ("encode Ok".to_string(), e))?;
-            let sets: Vec<u32> = kv.list("sets").iter().map(|x| *x as u32).collect();
+            let sets: Vec<u32> = if let Some((m, n)) = kv.str("sets").split_once('x') {
+                vec![m.parse().unwrap(); n.parse().unwrap()]
+            } else {
+                kv.list("sets").iter().map(|x| *x as u32).collect()
+            };
             check_rounds(&g, &g2, &sets)
         }
         w => panic!("what {w}"),
@@ -265,6 +324,55 @@ pub fn run(ctx: &Ctx, rep: &mut Report) {
             }
         }
     }
+    // mid-size configurations: every single missing original, read through accessor and iterator
+    let mids: Vec<(usize, usize)> = if ctx.thorough() { vec![(40, 1), (17, 16), (100, 4), (33, 2), (64, 3), (32, 1), (31, 2), (29, 4), (25, 8), (35, 35), (64, 64), (65, 17), (2, 40), (16, 17)] } else { vec![(40, 1), (17, 16), (100, 4), (33, 2), (35, 35), (16, 17)] };
+    for &(k, r) in &mids {
+        for (eng, codec) in [("nosimd", "def"), ("default", "rs"), ("avx2", "high"), ("nosimd", "low")] {
+            if eng == "avx2" && !engines_fast().contains(&"avx2") || !spec_supports(codec_kind(codec), k, r) {
+                continue;
+            }
+            let base = Kv::new().with("eng", eng).with("codec", codec).with("k", k).with("r", r).with("data", "dense:2").with("soil", soil).with("seed", seed);
+            for e in 0..k {
+                let og: Vec<usize> = (0..k).filter(|i| *i != e).collect();
+                // all recovery shards given (full bitmap words), and only the last one
+                cases.push(base.clone().with("what", "dec").with("og", fmt_ranges(&og)).with("rg", fmt_ranges(&(0..r).collect::<Vec<_>>())));
+                if e % 4 == 0 {
+                    cases.push(base.clone().with("what", "dec").with("og", fmt_ranges(&og)).with("rg", format!("{}", r - 1)));
+                }
+            }
+        }
+    }
+    rep.bound("mid_size_accessors", J::s(format!("{mids:?}: every single missing original, all / one recovery shard given")));
+    // multi-round histories on large configurations (work areas up to the whole field)
+    let bigs: Vec<(usize, usize)> = if ctx.thorough() { vec![(65535, 1), (32768, 32768), (61440, 4096), (4096, 61440), (1, 65535), (300, 20), (1000, 1000), (20, 300), (16384, 32768)] } else { vec![(65535, 1), (32768, 32768), (1, 65535), (300, 20), (1000, 1000)] };
+    for &(k, r) in &bigs {
+        for codec in ["def", "high", "low"] {
+            if !spec_supports(codec_kind(codec), k, r) || (!ctx.thorough() && codec != "def" && k + r > 5000) {
+                continue;
+            }
+            let eng = if engines_fast().contains(&"avx2") { "avx2" } else { "nosimd" };
+            cases.push(Kv::new().with("what", "bigrounds").with("eng", eng).with("codec", codec).with("k", k).with("r", r).with("data", "dense:2").with("soil", 0).with("seed", seed));
+        }
+        if spec_supports(Kind::Rs, k, r) {
+            cases.push(Kv::new().with("what", "bigrounds").with("eng", "default").with("codec", "rs").with("k", k).with("r", r).with("data", "dense:2").with("soil", 0).with("seed", seed));
+        }
+    }
+    rep.bound("big_rounds", J::s(format!("{bigs:?}: 6 consecutive rounds over 3 received-set shapes touching the highest positions")));
+    // long runs: more rounds than fit an 8-bit (thorough: 16-bit) counter
+    let long = if ctx.thorough() { 70000 } else { 1100 };
+    for (eng, codec) in [("nosimd", "def"), ("default", "rs"), ("nosimd", "high"), ("nosimd", "low")] {
+        for &(k, r) in &[(3usize, 2usize), (2, 3)] {
+            if ctx.thorough() && (codec == "high" || codec == "low") {
+                continue;
+            }
+            let sets = subsets_at_least_k(k, r);
+            // one exactly-k set with a missing original, fixed for the whole run
+            let mask = *sets.iter().find(|m| m.count_ones() as usize == k && (*m & ((1u32 << k) - 1)).count_ones() as usize == k - 1).unwrap();
+            cases.push(Kv::new().with("what", "rounds").with("eng", eng).with("codec", codec).with("k", k).with("r", r).with("data", "dense:64").with("soil", soil).with("seed", seed).with("sets", format!("{mask}x{long}")));
+            cases.push(Kv::new().with("what", "encrounds").with("eng", eng).with("codec", codec).with("k", k).with("r", r).with("bytes", 64).with("rounds", long).with("seed", seed));
+        }
+    }
+    rep.bound("long_runs", J::s(format!("{long} consecutive rounds of a fixed received-set / encode on one object")));
     rep.bound("encoder_cfg", J::s(format!("[1..{kmax}]^2 x sizes 2/64/66 x {engs:?}")));
     rep.bound("decoder_lattice", J::s(format!("every sufficient received-set for k+r <= {nmax}")));
     rep.bound("rounds", J::s(format!("every ordered {} of received-sets for k+r <= 4; 6 consecutive rounds per set", if ctx.thorough() { "pair and triple" } else { "pair" })));
